@@ -75,6 +75,10 @@ type DefragmentationContext struct {
 }
 
 func (c *DefragmentationContext) init(o *DefragmentationInfo) error {
+	if o.MaxBytesPerPass < 0 || o.MaxAllocationsPerPass < 0 {
+		return errors.Errorf("defragmentation pass limits cannot be negative: MaxBytesPerPass %d, MaxAllocationsPerPass %d", o.MaxBytesPerPass, o.MaxAllocationsPerPass)
+	}
+
 	c.MaxPassBytes = o.MaxBytesPerPass
 	c.MaxPassAllocations = o.MaxAllocationsPerPass
 
